@@ -299,6 +299,10 @@ func c19Check(c c19Case) vfResult {
 			return r
 		}
 	}
+	if err := vfRoutes(raw, 0, m); err != nil {
+		r.Err = fmt.Errorf("%v; entries: %v", err, names)
+		return r
+	}
 	r.Labels = append(r.Labels, "kind-"+c.Kind, "verdict-"+got)
 	mixed, anyStream, anyRaw := false, false, false
 	for _, e := range c.Entries {
